@@ -29,6 +29,17 @@ func (a *admDriver) coreObs() string {
 	return a.showPrices(ctx) + "|" + reFilter.ReplaceAllString(oraclekeeper.VerifDumpAgc(a.name), "") + "|" + oraclekeeper.VerifDumpCache(a.name)
 }
 
+// f13a: the tag of the finding "a validator that left the set keeps its oracle nonce entries" — applied
+// to the admission sigs when the non-validator concerned is a departed genesis validator.
+const f13a = ":F-13a:departed-validator-keeps-nonces"
+
+func (a *admDriver) departedTag(creator int) string {
+	if _, in := a.powers[creator]; !in && creator < 50 {
+		return f13a
+	}
+	return ""
+}
+
 func (a *admDriver) send(t orcTx, open map[int]uint64, tag string) string {
 	s := a.spec
 	type pre struct {
@@ -62,7 +73,7 @@ func (a *admDriver) send(t orcTx, open map[int]uint64, tag string) string {
 				a.env.Violate("C13.checktx", "checktx-admitted-unsigned-signer:F-10c", fmt.Sprintf("CheckTx admitted a create-price tx with %d signers but %d SignerInfos", len(cs), nInfos), a.hist)
 			}
 			if _, isVal := a.powers[t.Msgs[0].Creator]; !isVal {
-				a.env.Violate("C13.checktx", "checktx-admitted-nonvalidator", "CheckTx admitted a non-validator's submission", a.hist)
+				a.env.Violate("C13.checktx", "checktx-admitted-nonvalidator"+a.departedTag(t.Msgs[0].Creator), fmt.Sprintf("CheckTx admitted the submission of non-validator %d", t.Msgs[0].Creator), a.hist)
 			}
 			if prio != math.MaxInt64 {
 				a.env.Note("checktx-priority-not-max")
@@ -111,10 +122,10 @@ func (a *admDriver) send(t orcTx, open map[int]uint64, tag string) string {
 	for i, m := range t.Msgs {
 		k := fmt.Sprintf("%d/%d", m.Creator, m.Feeder)
 		if _, isVal := a.powers[m.Creator]; !isVal {
-			a.env.Violate("C13.admit", "admitted-nonvalidator", fmt.Sprintf("admitted a submission of non-validator %d", m.Creator), a.hist)
+			a.env.Violate("C13.admit", "admitted-nonvalidator"+a.departedTag(m.Creator), fmt.Sprintf("admitted a submission of non-validator %d (%s)", m.Creator, cls), a.hist)
 		}
 		if !pres[i].has || pres[i].status != 1 {
-			a.env.Violate("C13.admit", "admitted-no-open-round", fmt.Sprintf("admitted a submission for feeder %d with no open round (nonce entry %v, status %d)", m.Feeder, pres[i].has, pres[i].status), a.hist)
+			a.env.Violate("C13.admit", "admitted-no-open-round"+a.departedTag(m.Creator), fmt.Sprintf("admitted a submission of %d for feeder %d with no open round (nonce entry %v, status %d)", m.Creator, m.Feeder, pres[i].has, pres[i].status), a.hist)
 		}
 		want := pres[i].nonce + 1 + seq[k]
 		if m.Nonce != want || m.Nonce > s.MaxNonce || m.Nonce < 1 {
@@ -161,6 +172,54 @@ func (a *admDriver) send(t orcTx, open map[int]uint64, tag string) string {
 	return cls
 }
 
+// repeatDetIDs rewrites the deterministic sources of m so that a source round occurs more than once.
+func (a *admDriver) repeatDetIDs(m *orcMsg) string {
+	s := a.spec
+	kind := "repeat-none(no-det-source)"
+	for i := range m.Srcs {
+		sc := &m.Srcs[i]
+		if sc.ID < 1 || int(sc.ID) > len(s.Sources) || !s.Sources[sc.ID-1][1] || len(sc.Prices) == 0 {
+			continue
+		}
+		first := sc.Prices[0]
+		room := int(s.MaxDetID) - len(sc.Prices)
+		switch a.rng.Pick(4, 3, 2, 1) {
+		case 0: // same source round, same value, as often as MaxDetID allows
+			k := 1
+			if room > 1 {
+				k = 1 + a.rng.Intn(room)
+			}
+			for j := 0; j < k && room > 0; j++ {
+				sc.Prices = append(sc.Prices, first)
+			}
+			kind = "repeat-same-value"
+		case 1: // same source round, another value
+			q := first
+			q.Price = fmt.Sprint(1 + a.rng.Intn(9))
+			if room > 0 {
+				sc.Prices = append(sc.Prices, q)
+			}
+			kind = "repeat-other-value"
+		case 2: // exactly MaxDetID entries: distinct rounds, the last one repeating the first
+			for j := 0; len(sc.Prices) < int(s.MaxDetID)-1; j++ {
+				q := first
+				q.DetID = fmt.Sprint(20 + j)
+				sc.Prices = append(sc.Prices, q)
+			}
+			if len(sc.Prices) < int(s.MaxDetID) {
+				sc.Prices = append(sc.Prices, first)
+			}
+			kind = "repeat-at-maxdetid"
+		case 3: // MaxDetID+1 entries (refused as a whole)
+			for len(sc.Prices) <= int(s.MaxDetID) {
+				sc.Prices = append(sc.Prices, first)
+			}
+			kind = "repeat-past-maxdetid"
+		}
+	}
+	return kind
+}
+
 func (a *admDriver) block() {
 	s := a.spec
 	h := uint64(a.c.Header.Height)
@@ -197,6 +256,13 @@ func (a *admDriver) block() {
 			}
 			m := a.honestMsg(v, fi, base)
 			t := orcTx{Msgs: []orcMsg{m}}
+			if a.env.Int("dupdet", 0) == 1 && a.rng.Chance(1, 4) {
+				// a source round repeated inside one message (first or later message of the round, same or
+				// different value), and the MaxDetID boundary: a validator counts once per source round
+				a.env.Outcome("shape:" + a.repeatDetIDs(&t.Msgs[0]))
+				a.send(t, open, "")
+				continue
+			}
 			switch a.rng.Pick(5, 6, 1, 1, 1, 1, 1, 2) {
 			case 7: // exactly at / one past the future limit (block times carry sub-second parts here)
 				for si := range t.Msgs[0].Srcs {
@@ -396,6 +462,48 @@ func directedC13Forged(env *Env) {
 	env.Report.Histories++
 }
 
+// directedDepartedNonce (F-13a): operator 2 opts out in block 2; the minute epoch ends with
+// BeginBlock(10), x/dogfood returns power 0 for it at EndBlock(10) while the round based at 9 is open
+// (every validator got a zero nonce for it at block 9). EndBlock removes the nonces of the sealed
+// feeder for the validators of the NEW set only: the departed validator keeps its entry, and the
+// fee-less ante path admits its next submission although it is not a validator any more.
+func directedDepartedNonce(env *Env) {
+	spec := vsBaseSpec([]int64{10, 10, 10})
+	o := newOrc(env, 131305, spec, func(c *ChainCfg) { c.EpochID = "minute" })
+	o.emitSetup()
+	a := &admDriver{orcDriver: newOrcDriver(o, NewRNG(131305)), quota: map[string]int{}}
+	a.wMon = "C13.counted"
+	for b := 0; b < 13; b++ {
+		h := uint64(o.c.Header.Height)
+		open := map[int]uint64{}
+		if bb := spec.openBase(0, h); bb > 0 {
+			open[0] = bb
+			a.roundLog(0, bb)
+		}
+		switch h {
+		case 2:
+			o.vsDo(vsAction{kind: "optout", op: 2})
+		case 11, 12:
+			n, _ := a.nonceOf(2, 1)
+			cls := a.send(vsMsg(a.orcDriver, 2, 9, n+1, [2]string{"9", "2"}), open, "")
+			env.Outcome(fmt.Sprintf("directed-departed-nonce:block-%d=%s", h, cls))
+		}
+		upd, halted := a.endBlock()
+		if halted {
+			return
+		}
+		a.applyUpdates(upd)
+		step := 2 * time.Second
+		if h == 9 {
+			step = 70 * time.Second
+		}
+		if !a.commitBegin(step) {
+			return
+		}
+	}
+	env.Report.Histories++
+}
+
 func domOracleC13(env *Env) error {
 	n := env.Int("histories", 10)
 	maxBlocks := env.Int("blocks", 30)
@@ -406,13 +514,31 @@ func domOracleC13(env *Env) error {
 		directedC13SignerInfos(env)
 		expirySweep(env)
 	}
+	if env.Int("dupdet", 0) == 1 {
+		directedDupDetID(env, "C13.counted")
+	}
+	if env.Int("valset", 0) == 1 {
+		directedDeparted(env, "C13.counted")
+		directedDepartedNonce(env)
+	}
 	for hi := 0; hi < n; hi++ {
 		spec := genOrcSpec(rng, false)
-		o := newOrc(env, env.Report.Seed*2000+uint64(hi), spec, nil)
+		minute := env.Int("valset", 0) == 1 && hi%3 == 2
+		o := newOrc(env, env.Report.Seed*2000+uint64(hi), spec, func(c *ChainCfg) {
+			if minute {
+				c.EpochID = "minute"
+			}
+		})
 		o.emitSetup()
 		a := &admDriver{orcDriver: newOrcDriver(o, rng), quota: map[string]int{}}
+		a.wMon = "C13.counted"
 		nb := 12 + rng.Intn(maxBlocks)
 		for b := 0; b < nb; b++ {
+			if minute && rng.Chance(1, 5) {
+				if act, ok := a.vsPick(); ok {
+					o.vsDo(act)
+				}
+			}
 			a.block()
 			upd, halted := a.endBlock()
 			if halted {
@@ -421,7 +547,11 @@ func domOracleC13(env *Env) error {
 			}
 			a.applyUpdates(upd)
 			a.idsMonitor(uint64(o.c.Header.Height), nil)
-			if !a.commitBegin(subSecondStep(rng, o.c.Header.Time)) {
+			step := subSecondStep(rng, o.c.Header.Time)
+			if minute && rng.Chance(1, 6) {
+				step += 58 * time.Second
+			}
+			if !a.commitBegin(step) {
 				env.Violate("C13.halt", "halt", "Commit/BeginBlock panicked: "+o.halted, o.hist)
 				break
 			}
